@@ -710,8 +710,12 @@ func TestCheck(t *testing.T) {
 		"auth.irma.schememanager x jsonld.contexts.remoteallowlist x didmethods x delivery channel x secret delivery), generated from the seed as (1) a pairwise covering array over the " +
 		"start-up-secure values in strict mode, (2) every single insecure/moved/CLI-secret setting on random secure backgrounds with its non-strict twin, (3) a covering array over the " +
 		"complete product (pairwise quick, 3-wise thorough); each is started with the real `nuts server` command in its own child process. Plus outbound cases (strictmode, constructor, cache, " +
-		"method, URL class, redirect chain) through the real http/client. A case is non-trivial when the child reported a decisive observation (refusal with its error, or a running node " +
-		"with its probes) / the request outcome was recorded; distinct by the full configuration (values and concrete variants) resp. the outbound case tuple.")
+		"method, URL class, redirect chain) through the real http/client. Plus, on every running node, JSON-LD context cases (allow list configuration, strictmode, " +
+		"route = document loader | JSON-LD reader | VC search API, listed entry, kind of look-alike URL derived from it: prefix extensions, truncations, suffix/substring embeddings, same host/other " +
+		"path, other host/same path, scheme, case, port, trailing dot, userinfo, percent-encoding, whitespace, dot segments, seeded random variants; listed contexts whose server nests/imports/" +
+		"redirects to/links an unlisted one), judged on the requests seen at the transport against exact membership in the configured list. A case is non-trivial when the child reported a decisive observation (refusal with its error, or a running node " +
+		"with its probes) / the request outcome was recorded; distinct by the full configuration (values and concrete variants) resp. the outbound case tuple resp. " +
+		"(list configuration, mode, route, kind, entry).")
 	r.Require(r.Pick(60, 400), r.Pick(50, 300))
 	r.Assume("network TLS on/off is the tls.* factor: this version has no network.enabletls, TLS is on iff tls.certfile/tls.certkeyfile are set")
 	r.Assume("the IRMA scheme directory is pre-populated with the signed empty scheme the repository ships (development/irma/empty) and auth.irma.autoupdateschemas=false: there is no internet")
@@ -751,7 +755,7 @@ func TestCheck(t *testing.T) {
 		evaluate(r, res)
 	}
 	coverage(r, cases)
-	batteryCoverage(r, cases)
+	batteryCoverage(r, results)
 	outboundDirect(t, r)
 }
 
@@ -847,7 +851,7 @@ func evaluate(r *ev.Run, res result) {
 	evaluateProbes(r, res, mode)
 	if sampled["running/"+mode] < 1 {
 		sampled["running/"+mode]++
-		r.Sample(map[string]any{"outcome": "running", "mode": mode, "config": c.V, "url": c.URL, "args": res.l.Args, "probes": len(o.Probes)})
+		r.Sample(map[string]any{"outcome": "running", "mode": mode, "config": c.V, "url": c.URL, "args": res.l.Args, "probes": len(o.Probes), "jsonld_context_example": ctxExample})
 	}
 }
 
@@ -884,6 +888,8 @@ func evaluateProbes(r *ev.Run, res result, mode string) {
 		switch p.Probe {
 		case "dummy-session", "dummy-verify":
 			switch {
+			case p.Status == 0 && p.Err != "":
+				r.Inconclusive("no response from the node for " + p.Probe + ": " + p.Err)
 			case strict && p.OK:
 				r.Violation("C20/strict/dummy-means-usable/"+p.Probe, "strict mode: the dummy authentication means was accepted ("+p.Probe+", validators="+c.V[fValidators]+")", w)
 			case strict:
